@@ -432,10 +432,10 @@ PROPERTIES["C08"] = {
                      "nano::datasource_t::{resize, set, visit}", "nano::feature_storage_t::set", "nano::generator_t::{shuffle, shuffled, should_drop, flatten_dropped}"]},
         {"engine": "sbv", "harness": "C08_storage", "sources": ["C08_storage.cpp", "sbv_support.cpp"], "env": {"SBV_MERGE_CAP": "300"},
          "quick": ["f=sa;n=2;cls=3", "f=mbe;n=2", "f=dcr;n=2", "f=sm;n=2;cls=2", "f=s;n=1;cls=256;rep=0", "f=s;n=1;cls=257;rep=0", "f=s;n=1;cls=255;rep=0", "f=ms;n=1;cls=4", "f=s;n=1;cls=3;rep=0;bad=1", "f=s;n=1;cls=256;rep=0;bad=1", "f=sa;n=2;cls=300;rep=0;bad=1",
-                   "f=ca;n=1;gen=product;rep=0", "f=ab;n=1;gen=product;rep=0", "f=dc;n=1;gen=product;rep=0", "f=EE;n=2;gen=product;rep=0"],
+                   "f=ca;n=1;gen=product;rep=0", "f=ab;n=1;gen=product;rep=0", "f=dc;n=1;gen=product;rep=0", "f=EE;n=2;gen=product;rep=0", "f=a;n=2;tdims=1", "f=sr;n=2;tdims=1;rep=0"],
          "thorough": ["f=%s;n=%d;cls=%d" % t for t in (("sa", 2, 3), ("mbe", 2, 3), ("dcr", 2, 3), ("sm", 3, 2), ("ab", 3, 3), ("es", 2, 5), ("rm", 2, 3), ("cd", 2, 3), ("sss", 2, 3))] +
                      ["f=s;n=1;cls=%d;rep=0" % c for c in (2, 255, 256, 257)] + ["f=s;n=2;cls=256;rep=1", "f=ms;n=1;cls=4", "f=s;n=1;cls=3;rep=0;bad=1", "f=s;n=1;cls=256;rep=0;bad=1", "f=sa;n=2;cls=300;rep=0;bad=1", "f=s;n=2;cls=65536;rep=0;bad=1"] +
-                     ["f=%s;n=%d;gen=product;rep=0" % t for t in (("ca", 1), ("ab", 1), ("dc", 1), ("EE", 2), ("cab", 2), ("be", 1), ("aE", 2), ("ca", 2))],
+                     ["f=%s;n=%d;gen=product;rep=0" % t for t in (("ca", 1), ("ab", 1), ("dc", 1), ("EE", 2), ("cab", 2), ("be", 1), ("aE", 2), ("ca", 2))] + ["f=a;n=2;tdims=1", "f=sr;n=2;tdims=1;rep=0", "f=mb;n=3;tdims=1"],
          "budget": {"quick": {"deadline_s": 150, "max_paths": 20000, "query_s": 20}, "thorough": {"deadline_s": 1200, "max_paths": 200000, "query_s": 60}},
          "encoded": ["nano::datasource_t::{resize, set (every storage type), load, visit}", "nano::feature_storage_t / update_size_storage (storage type selection by class count)", "nano::setbit/getbit masks (symbolic given/missing pattern)",
                      "nano::dataset_t::{add, flatten, select, targets, columns, column2feature, feature}", "nano::elemwise_generator_t<sclass/mclass/scalar identity>::{flatten, select}", "nano::feature_t"]},
